@@ -1,14 +1,212 @@
 /-
-  Property C16 — PLACEHOLDER while the full theorem file (lean/stmts/C16.lean.txt) is being proved.
+  Property C16 — executable-interface apps act only on approved messages, exactly once.
+  Statements are FIXED: prove them exactly as stated (helper lemmas go above them or in Cgp/Proofs/C16.lean;
+  you may import and reuse Cgp.Props.C02 / Cgp.Proofs.C02, which are already proved).
 -/
 import Cgp.Executable
 import Cgp.GatewaySpec
+import Cgp.Proofs.C02
+import Cgp.Proofs.C16
 namespace Cgp.Props.C16
 open Cgp Cgp.Xdr Cgp.Gateway Cgp.Executable
+open Cgp.Proofs.C02 Cgp.Proofs.C16
 
-theorem app_rejected_unauth_never (H : Bytes → Bytes) (gw : State) (app : Addr) (eff : Effects) (c i sa p : Bytes)
-    (h : gw.approvals c i = .notApproved) :
+variable (H : Bytes → Bytes) {σ : Type} (V : Bytes → Bytes → σ → Bool)
+
+/-- the message an application `app` claims to be executing when it is handed (chain, id, source address, payload) -/
+def claimed (app : Addr) (c i sa p : Bytes) : Message :=
+  { sourceChain := c, messageId := i, sourceAddress := sa, contract := app, payloadHash := H p }
+
+/-- an application performs its effect iff the gateway holds an unexecuted approval naming that application, the same
+    chain, id and source address, and the hash of exactly the delivered payload -/
+theorem app_effect_iff (gw : State) (app : Addr) (eff : Effects) (c i sa p : Bytes) :
+    (∃ r, appExecute H gw app eff c i sa p = .ok r) ↔
+      gw.approvals c i = .approved (messageHash H (claimed H app c i sa p)) := by
+  rw [appExecute_eq]
+  unfold claimed
+  constructor
+  · rintro ⟨r, h⟩
+    split at h
+    · assumption
+    · cases h
+  · intro h
+    rw [if_pos h]
+    exact ⟨_, rfl⟩
+
+/-- exact outcome of a successful delivery: one new effect, the approval consumed, one gateway event, nothing else touched -/
+theorem app_effect_exact (gw gw' : State) (app : Addr) (eff eff' : Effects) (c i sa p : Bytes) (evs : List Event)
+    (h : appExecute H gw app eff c i sa p = .ok (gw', eff', evs)) :
+    eff' = eff ++ [(c, i, sa, p)] ∧ gw'.approvals c i = .executed ∧
+    (∀ c' i', ¬ (c' = c ∧ i' = i) → gw'.approvals c' i' = gw.approvals c' i') ∧
+    evs = [evExecuted (claimed H app c i sa p)] := by
+  rw [appExecute_eq] at h
+  split at h
+  · injection h with h
+    injection h with h1 h2
+    injection h2 with h2 h3
+    subst h1; subst h2; subst h3
+    refine ⟨rfl, by simp, ?_, rfl⟩
+    intro c' i' hne
+    simp [hne]
+  · cases h
+
+/-- otherwise the delivery fails (and, being a failed invocation, has no effect at all) -/
+theorem app_rejected (gw : State) (app : Addr) (eff : Effects) (c i sa p : Bytes)
+    (h : gw.approvals c i ≠ .approved (messageHash H (claimed H app c i sa p))) :
     ∃ e, appExecute H gw app eff c i sa p = .error e := by
-  simp [appExecute, validateMessage, h]
+  rw [appExecute_eq]
+  unfold claimed at h
+  rw [if_neg h]
+  exact ⟨_, rfl⟩
+
+/-- a delivered message cannot be delivered again — to any application, with any source address or payload -/
+theorem app_effect_once (gw gw' : State) (app : Addr) (eff eff' : Effects) (c i sa p : Bytes) (evs : List Event)
+    (h : appExecute H gw app eff c i sa p = .ok (gw', eff', evs))
+    (app2 : Addr) (eff2 : Effects) (sa2 p2 : Bytes) :
+    ∃ e, appExecute H gw' app2 eff2 c i sa2 p2 = .error e := by
+  have hx := (app_effect_exact H gw gw' app eff eff' c i sa p evs h).2.1
+  apply app_rejected
+  rw [hx]
+  intro hh; cases hh
+
+/-- the effect binds every field of what was approved: if message `m` is the recorded approval and the application acts,
+    then the application is `m`'s destination, the source address is `m`'s and the DELIVERED payload hashes to `m`'s
+    payload hash — or a hash collision is exhibited -/
+theorem app_effect_binds (gw : State) (m : Message) (app : Addr) (eff : Effects) (sa p : Bytes)
+    (hm : m.Typed) (hc : (claimed H app m.sourceChain m.messageId sa p).Typed)
+    (hrec : gw.approvals m.sourceChain m.messageId = .approved (messageHash H m))
+    (h : ∃ r, appExecute H gw app eff m.sourceChain m.messageId sa p = .ok r) :
+    (app = m.contract ∧ sa = m.sourceAddress ∧ H p = m.payloadHash) ∨ Collision H := by
+  have hr := (app_effect_iff H gw app eff m.sourceChain m.messageId sa p).mp h
+  rw [hrec] at hr
+  injection hr with hr
+  unfold messageHash at hr
+  by_cases hx : enc m.toSc = enc (claimed H app m.sourceChain m.messageId sa p).toSc
+  · have := enc_injective _ _ (toSc_WF hm) (toSc_WF hc) hx
+    have := toSc_injective this
+    left
+    cases m
+    simp only [claimed, Message.mk.injEq] at this
+    obtain ⟨_, _, h1, h2, h3⟩ := this
+    exact ⟨h2.symm, h1.symm, h3.symm⟩
+  · exact Or.inr ⟨_, _, hx, hr⟩
+
+/-! ### histories: gateway operations interleaved with deliveries to arbitrary applications -/
+
+inductive XOp (σ : Type) where
+  | gw (op : Op σ)
+  | deliver (app : Addr) (c i sa p : Bytes)
+
+structure XWorld where
+  w : World
+  eff : Addr → Effects
+
+def xstep (x : XWorld) : XOp σ → XWorld × Bool      -- Bool: did a delivery take effect
+  | .gw op => ({ x with w := (step H V x.w op).1 }, false)
+  | .deliver app c i sa p =>
+    match appExecute H x.w.st app (x.eff app) c i sa p with
+    | .ok (gw', eff', _) => ({ w := { x.w with st := gw' }, eff := fun a => if a = app then eff' else x.eff a }, true)
+    | .error _ => (x, false)
+
+def xrun (x : XWorld) : List (XOp σ) → XWorld × List Bool
+  | [] => (x, [])
+  | op :: ops =>
+    let (x', b) := xstep H V x op
+    let (x'', bs) := xrun x' ops
+    (x'', b :: bs)
+
+/-- effective deliveries of message (c, i) in a history -/
+def deliveries (c i : Bytes) : List (XOp σ) → List Bool → Nat
+  | (.deliver _ c' i' _ _) :: ops, true :: bs => deliveries c i ops bs + (if c' = c ∧ i' = i then 1 else 0)
+  | _ :: ops, _ :: bs => deliveries c i ops bs
+  | _, _ => 0
+
+theorem xrun_cons (x : XWorld) (op : XOp σ) (ops : List (XOp σ)) :
+    xrun H V x (op :: ops) =
+      ((xrun H V (xstep H V x op).1 ops).1, (xstep H V x op).2 :: (xrun H V (xstep H V x op).1 ops).2) := rfl
+
+/-- contribution of one (operation, flag) pair to `deliveries` -/
+def xhit (c i : Bytes) : XOp σ → Bool → Nat
+  | .deliver _ c' i' _ _, true => if c' = c ∧ i' = i then 1 else 0
+  | _, _ => 0
+
+theorem deliveries_cons (c i : Bytes) (op : XOp σ) (ops : List (XOp σ)) (b : Bool) (bs : List Bool) :
+    deliveries c i (op :: ops) (b :: bs) = deliveries c i ops bs + xhit c i op b := by
+  cases op <;> cases b <;> simp [deliveries, xhit]
+
+theorem xstep_adv (x : XWorld) (op : XOp σ) (c i : Bytes) :
+    Adv (x.w.st.approvals c i) ((xstep H V x op).1.w.st.approvals c i) := by
+  cases op with
+  | gw op => exact step_adv H V x.w op c i
+  | deliver app c' i' sa p =>
+    simp only [xstep]
+    split
+    · rename_i gw' eff' evs h
+      obtain ⟨_, he, hne, _⟩ := app_effect_exact H _ _ _ _ _ _ _ _ _ _ h
+      have hap := (app_effect_iff H x.w.st app (x.eff app) c' i' sa p).mp ⟨_, h⟩
+      by_cases hci : c = c' ∧ i = i'
+      · obtain ⟨rfl, rfl⟩ := hci
+        exact Or.inr (Or.inr ⟨⟨_, hap⟩, he⟩)
+      · exact Or.inl (hne c i hci).symm
+    · exact Adv.refl _
+
+theorem xstep_executed (x : XWorld) (op : XOp σ) (c i : Bytes) (h0 : x.w.st.approvals c i = .executed) :
+    (xstep H V x op).1.w.st.approvals c i = .executed := by
+  rcases xstep_adv H V x op c i with h | ⟨h, _⟩ | ⟨_, h⟩
+  · rw [← h]; exact h0
+  · rw [h0] at h; cases h
+  · exact h
+
+/-- a hit happens only from `approved`, and leaves `executed` -/
+theorem xhit_step (x : XWorld) (op : XOp σ) (c i : Bytes) (hh : xhit c i op (xstep H V x op).2 ≠ 0) :
+    (∃ h, x.w.st.approvals c i = .approved h) ∧ (xstep H V x op).1.w.st.approvals c i = .executed ∧
+    xhit c i op (xstep H V x op).2 = 1 := by
+  cases op with
+  | gw op => simp [xhit] at hh
+  | deliver app c' i' sa p =>
+    simp only [xstep] at hh ⊢
+    split at hh
+    · rename_i gw' eff' evs h
+      obtain ⟨_, he, _, _⟩ := app_effect_exact H _ _ _ _ _ _ _ _ _ _ h
+      have hap := (app_effect_iff H x.w.st app (x.eff app) c' i' sa p).mp ⟨_, h⟩
+      simp only [xhit] at hh ⊢
+      by_cases hci : c' = c ∧ i' = i
+      · obtain ⟨rfl, rfl⟩ := hci
+        exact ⟨⟨_, hap⟩, he, by simp⟩
+      · simp [hci] at hh
+    · simp [xhit] at hh
+
+theorem deliveries_bound (x : XWorld) (ops : List (XOp σ)) (c i : Bytes) :
+    deliveries c i ops (xrun H V x ops).2 ≤ 1 ∧
+    (x.w.st.approvals c i = .executed → deliveries c i ops (xrun H V x ops).2 = 0) := by
+  induction ops generalizing x with
+  | nil => simp [deliveries]
+  | cons op ops ih =>
+    rw [xrun_cons]
+    simp only [deliveries_cons]
+    obtain ⟨ih1, ih2⟩ := ih (xstep H V x op).1
+    by_cases hh : xhit c i op (xstep H V x op).2 = 0
+    · rw [hh]
+      refine ⟨ih1, fun h0 => ?_⟩
+      have := ih2 (xstep_executed H V x op c i h0)
+      omega
+    · obtain ⟨⟨h, ha⟩, he, h1⟩ := xhit_step H V x op c i hh
+      have := ih2 he
+      rw [h1, this]
+      refine ⟨Nat.le_refl _, fun h0 => ?_⟩
+      rw [h0] at ha; cases ha
+
+/-- **exactly once over every history**: whatever the gateway operations (approvals, re-approvals of the same id with the
+    same or other content, rotations, direct consumption attempts) and deliveries, each (chain, id) takes effect at most once
+    across ALL applications -/
+theorem effect_at_most_once (x : XWorld) (ops : List (XOp σ)) (c i : Bytes) :
+    deliveries c i ops (xrun H V x ops).2 ≤ 1 := by
+  exact (deliveries_bound H V x ops c i).1
+
+/-- and never, if the message was already executed -/
+theorem no_effect_after_executed (x : XWorld) (ops : List (XOp σ)) (c i : Bytes)
+    (h0 : x.w.st.approvals c i = .executed) :
+    deliveries c i ops (xrun H V x ops).2 = 0 := by
+  exact (deliveries_bound H V x ops c i).2 h0
 
 end Cgp.Props.C16
